@@ -13,9 +13,13 @@ S=$(mktemp -d /tmp/verif-mutant-repo.XXXXXX)
 # the commit's (old) time stamp and would look unchanged after an earlier mutant modified them - make every source newer than any build
 find $S -type f \( -name '*.rs' -o -name 'Cargo.toml' -o -name 'Cargo.lock' \) -exec touch {} +
 cd "$HERE"
+# one build slot (incremental cargo target dirs build/*-alt<slot>) per concurrent run
+for slot in 1 2 3 4 5 6; do exec 9>/tmp/verif-alt-slot-$slot.lock; if flock -n 9; then break; fi; slot=; done
+[ -z "$slot" ] && { exec 9>/tmp/verif-alt-slot-1.lock; flock 9; slot=1; }
+export VERIF_ALT_TAG=$slot
 for c in $P "$@"; do
   echo "=== VERIF_REPO=$S ./check $c   (with $PATCH applied)"
   VERIF_REPO=$S timeout 2400 ./check $c 2>&1 | grep -E "^VIOLATION|^KNOWN-FINDING|^\[$c\]" | cut -c1-240 | grep -v "^KNOWN-FINDING" | head -12
 done
 rm -rf $S
-git checkout -q -- evidence 2>/dev/null
+git checkout -q -- evidence 2>/dev/null || true
